@@ -41,6 +41,23 @@ void vp_native_assume(int c);
 #endif
 /* zero-length copies are no-ops whatever the pointers are (memcpy(dst, NULL, 0) is what vector/optional code does for
    empty ranges; it is formally undefined in ISO C but not a memory-safety event) */
+#if defined(VP_MEM_PREFIX) && (defined(__CPROVER__) || defined(VP_CBMC_BUILD))
+/* "huge frame" mode (C07 h_enc_big at 64 KiB): CBMC's array copy costs O(n) recursion depth and superlinear memory, so a copy
+   of n bytes checks that both whole regions are accessible and then transfers only the first VP_MEM_PREFIX bytes; the rest
+   of the destination keeps its previous (for fresh allocations: nondeterministic) contents. Sound for assertions about sizes,
+   headers and anything within the prefix; harnesses using it assert nothing else. */
+#define vp_memcpy(d, s, n) do { unsigned long vp_n_ = (n); if (vp_n_) { unsigned char *vp_d_ = (unsigned char *)(d); const unsigned char *vp_s_ = (const unsigned char *)(s); \
+    __CPROVER_assert(__CPROVER_r_ok(vp_s_, vp_n_), "memcpy source region readable"); __CPROVER_assert(__CPROVER_w_ok(vp_d_, vp_n_), "memcpy destination region writeable"); \
+    for (unsigned long vp_i_ = 0; vp_i_ < VP_MEM_PREFIX; ++vp_i_) if (vp_i_ < vp_n_) vp_d_[vp_i_] = vp_s_[vp_i_]; } } while (0)
+#define vp_memmove(d, s, n) do { unsigned long vp_n_ = (n); if (vp_n_) { unsigned char *vp_d_ = (unsigned char *)(d); const unsigned char *vp_s_ = (const unsigned char *)(s); unsigned char vp_t_[VP_MEM_PREFIX]; \
+    __CPROVER_assert(__CPROVER_r_ok(vp_s_, vp_n_), "memmove source region readable"); __CPROVER_assert(__CPROVER_w_ok(vp_d_, vp_n_), "memmove destination region writeable"); \
+    for (unsigned long vp_i_ = 0; vp_i_ < VP_MEM_PREFIX; ++vp_i_) if (vp_i_ < vp_n_) vp_t_[vp_i_] = vp_s_[vp_i_]; \
+    for (unsigned long vp_i_ = 0; vp_i_ < VP_MEM_PREFIX; ++vp_i_) if (vp_i_ < vp_n_) vp_d_[vp_i_] = vp_t_[vp_i_]; } } while (0)
+#define vp_memset(d, c, n) do { unsigned long vp_n_ = (n); if (vp_n_) { unsigned char *vp_d_ = (unsigned char *)(d); \
+    __CPROVER_assert(__CPROVER_w_ok(vp_d_, vp_n_), "memset destination region writeable"); \
+    for (unsigned long vp_i_ = 0; vp_i_ < VP_MEM_PREFIX; ++vp_i_) if (vp_i_ < vp_n_) vp_d_[vp_i_] = (unsigned char)(c); } } while (0)
+#else
 #define vp_memcpy(d, s, n) do { unsigned long vp_n_ = (n); if (vp_n_) memcpy((d), (s), vp_n_); } while (0)
 #define vp_memmove(d, s, n) do { unsigned long vp_n_ = (n); if (vp_n_) memmove((d), (s), vp_n_); } while (0)
 #define vp_memset(d, c, n) do { unsigned long vp_n_ = (n); if (vp_n_) memset((d), (c), vp_n_); } while (0)
+#endif
